@@ -368,15 +368,21 @@ func postProcessProf(profile *pprof_proto.Profile) ([]*model.Function, []*profTr
 	}
 	for _, sample := range profile.Sample {
 		parentId := uint64(0)
-		for i := len(sample.Location) - 1; i >= 0; i-- {
-			loc := sample.Location[i]
+		locations := sample.Location
+		if len(locations) == 0 {
+			// a sample without frames still carries weight (it is counted in values_agg):
+			// keep it under the placeholder frame instead of dropping it from the tree
+			locations = []*pprof_proto.Location{{}}
+		}
+		for i := len(locations) - 1; i >= 0; i-- {
+			loc := locations[i]
 			name := "n/a"
 			if len(loc.Line) > 0 {
 				name = loc.Line[0].Function.Name
 			}
 			fnId := city.CH64([]byte(name))
 			funcs[fnId] = name
-			nodeId := getNodeId(parentId, fnId, len(sample.Location)-i)
+			nodeId := getNodeId(parentId, fnId, len(locations)-i)
 			node := tree[nodeId]
 			if node == nil {
 				values := make([]profTrieValue, len(profile.SampleType))
